@@ -227,6 +227,11 @@ def check_C03(ctx):
     viols += run_family(ctx, "gc-sim2", behs, C03_TAGS)
     behs = gen_sim(ctx, "gc-sim3", 300 if quick else 3000, alphabet="OpsGC", clients="Seq3", weight=10)
     viols += run_family(ctx, "gc-sim3", behs, C03_TAGS)
+    # snapshots in the GC-biased histories: what a snapshot-fed replica has purged must not be needed by a peer's unsent edit
+    for th, iv in ([(2, 2)] if quick else [(1, 1), (2, 2), (3, 2)]):
+        behs = gen_sim(ctx, "gc-snap-t%d" % th, 300 if quick else 3000, alphabet="OpsGC", clients="Seq3", weight=10, threshold=th, interval=iv,
+                       feat='{"idle", "lateattach"}', late='{"c3"}')
+        viols += run_family(ctx, "gc-snap-t%d" % th, behs, C03_TAGS)
     fresh, known = split_known(ctx, viols)
     return "model_checking", fresh, known, mc_cov(ctx), ["memdb backend only"]
 
@@ -566,6 +571,14 @@ def check_C09(ctx):
     # snapshot encoding rightly does not carry - the garbage counts differ for that reason, not because of the encoding
     nfams = [dict(name="enc-undo-nest", alphabet="OpsNest", clients="Seq2", editors='{"c1"}', feat='{"idle", "undo"}', maxundo=4, maxedits=5, weight=6, **OBJ)]
     viols += sim_families(ctx, nfams, {"WireTransparent", "LogReplayable"}, n)
+    # small-scope exhaustive: every two-edit program with every undo/redo sequence <= 4 on text and tree text (the token set holds a
+    # non-BMP character): the reverse operations (restore spans, re-tombstone spans) through the wire encoding and a real push
+    for typ, alpha, extra, cap in [("txt", "OpsTxtNoStyle", TXT, 1000), ("treet", "OpsTreeTextNoStyle", TREE, 1000)]:
+        steps = generate(ctx, "gen_pairs.cfg", overrides={"Alphabet": alpha, "Editors": '{"c1"}', "MaxEdits": "2", "MaxSyncs": "0", "Feat": '{"undo"}',
+                                                          "MaxUndo": "4", "InitEdits": str(1 + len(extra["init"]))})
+        steps = sample(ctx, steps, cap if quick else None)
+        behs = [wrap(st, "exh-enc-%s-%d" % (typ, i), nclients=2, kinds=extra["kinds"], init=extra["init"], family="exh-enc-" + typ) for i, st in enumerate(steps)]
+        viols += run_family(ctx, "exh-enc-" + typ, behs, {"WireTransparent", "LogReplayable", "SyncNeverFails"})
     # merges, splits, split tickets, merged-from: the tree catalogue's changes and documents through the same round trips
     tv, _ = tree_catalogue(ctx, 4 if quick else 1, {"WireTransparent", "SnapshotBytesTransparent", "LogReplayable"})
     viols += tv
@@ -773,6 +786,8 @@ def stress_part(ctx, procs, runs):
         out = os.path.join(d, "stress-%d.ndjson" % i)
         cmd = [yr, "stress", "-out", out, "-runs", str(runs), "-seed", str(ctx.seed * 1000 + i), "-clients", str(3 + i % 3), "-late", str(6 + 3 * (i % 2)),
                "-docs", str(1 + i % 2), "-ops", str(20 + 10 * (i % 3))]
+        if i % 2 == 1:
+            cmd += ["-attachlimit", "100"]   # the per-document attachment lock is only taken when the project limits attachments
         ps.append((out, subprocess.Popen(cmd, stdout=subprocess.PIPE, stderr=subprocess.PIPE, text=True)))
     viols, traces = [], []
     for out, p in ps:
